@@ -562,6 +562,41 @@ BUILDERS_CHUNK = ["s3s::sig_v4::methods::create_chunk_string_to_sign"]
 BUILDERS_V2 = ["s3s::sig_v2::methods::create_string_to_sign", "s3s::sig_v2::methods::calculate_signature"]
 
 
+def rule_v5_header_view(chk, db):
+    """the sorted header view the verifiers sign from contains every header of the request: building it records each (name, value) pair or
+    fails as a whole; no header is skipped (a skipped header would reach the operation without being covered by any signature)"""
+    cands = [b for b in db.grep("from_headers") if b.crate == "s3s" and b.kind in ("Fn", "AssocFn") and short(b.name) == "from_headers" and "OrderedHeaders" in b.name]
+    if len(cands) != 1:
+        raise AnchorMissing("OrderedHeaders::from_headers: %d candidates" % len(cands))
+    b = inline.inlined(db, cands[0])
+    pushes = {bi for bi, t in b.calls() if short(callee_def(t)) in ("push", "extend", "insert", "push_back", "extend_from_slice") and
+              (callee_def(t).startswith("alloc::vec") or callee_def(t).startswith("alloc::collections") or "Extend" in callee_def(t))}
+    nexts = []
+    for nb, t in b.calls():
+        if callee_def(t).endswith("iterator::Iterator::next") and t["args"]:
+            sl = flow.backward(b, t["args"][0], at=nb)
+            if any(l == 1 for l, _ in sl.params) or 1 in sl.locals:
+                nexts.append(nb)
+    adaptors = [bi for bi, t in b.calls() if short(callee_def(t)) in ("collect", "try_collect", "extend") and any(
+        1 in flow.backward(b, a, at=bi).locals for a in t["args"])]
+    if not nexts and adaptors:
+        # an iterator chain: it must not filter
+        filt = [bi for bi, t in b.calls() if short(callee_def(t)) in ("filter", "filter_map", "flat_map", "skip", "skip_while", "take", "take_while", "flatten", "step_by")]
+        chk.verdict(not filt, "V5", "header-view-total", b.loc(filt[0]) if filt else b.loc(adaptors[0]),
+                    "the header view is collected through a filtering adaptor: some request headers are not covered by the signature")
+        return
+    if not nexts or not pushes:
+        raise AnchorMissing("OrderedHeaders::from_headers: no loop over the header map that records pairs")
+    oks = [w["bi"] for w in flow.return_writes(b) if w["kind"] == "Ok"]
+    for nb in nexts:
+        some = flow.outcomes_of_call(b, nb).get("Some")
+        r = flow.reach_from_edges(b, some, stop_blocks=frozenset(pushes)) if some else set()
+        skipped = (nb in r) or any(o in r for o in oks)
+        chk.verdict(bool(some) and not skipped, "V5", "header-view-total", b.loc(nb),
+                    "building the header view can move on to the next header (or finish) without recording the current one: such a header is invisible to "
+                    "every signature check but still reaches the operation")
+
+
 def run_common(chk, db, kinds, builders):
     """V1-V4 for the verifiers of the given kinds + TAINT⁺ inside the builders"""
     roles = Roles(db)
@@ -582,6 +617,8 @@ def run_common(chk, db, kinds, builders):
             chk.guard("V4", lambda c, vv=v: rule_v4(c, vv, roles))
         chk.guard("V3", lambda c, vv=v: rule_v3(c, vv, roles))
     chk.guard("V3", rule_v3_check, db)
+    chk.rule("V5", "header view total: OrderedHeaders::from_headers records every header of the request or fails as a whole")
+    chk.guard("V5", rule_v5_header_view, db)
     for fn in builders:
         skip = ()
         chk.guard("V4", lambda c, f=fn: param_reaches_return(db, f, c, "V4", "builder:" + short(f) + ("@v2" if "sig_v2" in f else "")))
